@@ -367,6 +367,7 @@ static bool isModifiable(CK_ATTRIBUTE_TYPE type)
 	switch (type) {
 	case CKA_LABEL:
 	case CKA_TRUSTED:
+	case CKA_WRAP_WITH_TRUSTED:
 	case CKA_ID:
 	case CKA_ISSUER:
 	case CKA_SERIAL_NUMBER:
